@@ -96,6 +96,13 @@ Eval(n, env, self, C) ==
         IN IF Matches(env.toks[j], m)
            THEN R("ok", FastForward(env, C.st, j), <<[s |-> env.toks[j].v]>>, TRUE, C.pend, C.log, C.nid)
            ELSE R("no", C.st, <<>>, FALSE, C.pend, C.log, C.nid)
+    [] n.op = "user" ->
+        \* a child implemented by user code (Parseable) that takes exactly one token with PeekingLexer.Next(): it matches the
+        \* next non-elided token (no match at EOF) and leaves the raw cursor just past it.  User code bypasses the capture
+        \* bookkeeping, so a capture wrapping it starts at the raw cursor (fc is left alone).
+        LET p == NxtFrom(env, C.st.raw) IN
+        IF IsEOF(env, p) THEN R("no", C.st, <<>>, FALSE, C.pend, C.log, C.nid)
+        ELSE R("ok", [raw |-> p + 1, cur |-> C.st.cur + 1, fc |-> C.st.fc], <<[user |-> env.toks[p].v]>>, TRUE, C.pend, C.log, C.nid)
     [] n.op = "seq" -> EvalSeq(n.kids, 1, env, self, C, <<>>, FALSE)
     [] n.op = "alt" -> EvalAlt(n.kids, 1, env, self, C, [saw |-> FALSE, deep |-> 0, vals |-> <<>>, nn |-> FALSE])
     [] n.op = "union" ->
@@ -226,7 +233,8 @@ Hdr(log, id) == LET hs == SelectSeq(log, LAMBDA e : "new" \in DOMAIN e /\ e.new 
 CanonField(env, log, id, p, fld) ==
   LET ws == Writes(log, id, fld.name)
       kind == fld.kind
-      nodeStr(v) == IF "node" \in DOMAIN v THEN CanonInst(env, log, v.node) ELSE "?"
+      nodeStr(v) == IF "node" \in DOMAIN v THEN CanonInst(env, log, v.node)
+                    ELSE IF "user" \in DOMAIN v THEN "PWord{W=" \o Q(v.user) \o "}" ELSE "?"
   IN CASE kind = "string" -> Q(JoinSeq([i \in 1..Len(ws) |-> JoinStr(ws[i].vals, 1)], 1, ""))
        [] kind = "strings" -> LET fv == FlatVals(ws, 1) IN "[" \o JoinSeq([j \in 1..Len(fv) |-> Q(fv[j].s)], 1, ",") \o "]"
        [] IsNumSlice(kind) -> (LET fv == FlatVals(ws, 1) IN "[" \o JoinSeq([j \in 1..Len(fv) |-> env.g.conv[ElemKind(kind)][fv[j].s]], 1, ",") \o "]")
@@ -241,11 +249,11 @@ CanonField(env, log, id, p, fld) ==
             ELSE LET w == ws[Len(ws)] IN
                  "[" \o JoinSeq([i \in 1..(w.to - w.from) |-> "tok" \o NatStr(w.from + i - 1)], 1, ",") \o "]"
        [] OTHER ->
-            LET single == kind = "node" \/ kind = "union" IN
+            LET single == kind = "node" \/ kind = "union" \/ kind = "unode" IN
             IF single
             THEN LET nz == SelectSeq(ws, LAMBDA w : Len(w.vals) > 0) IN
                  IF Len(ws) = 0 THEN "nil"
-                 ELSE IF Len(nz) = 0 THEN (IF kind = "node" THEN "ZERO" ELSE "nil")
+                 ELSE IF Len(nz) = 0 THEN (IF kind \in {"node", "unode"} THEN "ZERO" ELSE "nil")
                  ELSE nodeStr(nz[Len(nz)].vals[1])
             ELSE LET fv == FlatVals(ws, 1) IN "[" \o JoinSeq([j \in 1..Len(fv) |-> nodeStr(fv[j])], 1, ",") \o "]"
 
